@@ -943,3 +943,15 @@ func stallVerdict(wd time.Duration, done func() bool) (finished, rest bool, wher
 	}
 	return waitFor(wd, done), false, where
 }
+
+// neverOrNotYet is for waits that ran into their watchdog: "X did not happen" is a violation only if
+// the state shows it never will (the process is at rest); otherwise the run was merely slow and the
+// case is inconclusive.
+func (r *caseResult) neverOrNotYet(format string, a ...any) {
+	msg := fmt.Sprintf(format, a...)
+	if rest, where := atRest(3 * time.Second); rest {
+		r.violate("%s - and never will: the process is at rest (%s)", msg, where)
+	} else {
+		r.inconclusive("%s within the watchdog; the process is not at rest: %s", msg, where)
+	}
+}
